@@ -114,7 +114,63 @@ func c01hashCase(c *vf.Ctx, i int) {
 		} else {
 			h = randHash(vf.NewRand(vf.Mix(c.R.Uint64(), uint64(ki))), k.size)
 		}
-		for _, net := range allNets {
+		c01hashOnNets(c, k, h, allNets)
+	}
+}
+
+// c01wordCase: hashes constructed so that the CashAddr payload string spells
+// a word: the prefix of the same or another network, "bitcoincash" cannot be
+// spelled (b, i, o are no CashAddr characters) but "slpreg", "slptest",
+// "qqqqqq", a run of one character or a fragment of another address can.  A
+// decoder that looks for prefixes anywhere but in front of the separator
+// meets them here.
+func c01wordCase(c *vf.Ctx, i int) {
+	words := []string{"slpreg", "slptest", "test", "reg", "slp", "cash", "ecash", "etches", "simpleledger", "bchtest", "bchreg", "bchsim", "bitcoincash", "slpsim"}
+	k := c01kinds[i%6] // the six CashAddr kinds
+	w := words[(i/6)%len(words)]
+	var vals []byte
+	for j := 0; j < len(w); j++ {
+		x := strings.IndexByte(ref.CashCharset, w[j])
+		if x < 0 {
+			// not spellable: keep the spellable tail (e.g. "chtest" of "bchtest")
+			vals = vals[:0]
+			continue
+		}
+		vals = append(vals, byte(x))
+	}
+	if len(vals) < 3 {
+		return
+	}
+	typ := byte(0)
+	if strings.Contains(k.name, "P2SH") {
+		typ = 8
+	}
+	if k.size == 32 {
+		typ |= 3
+	}
+	h := c.R.Bytes(k.size)
+	sym := ref.Pack8to5(append([]byte{typ}, h...))
+	off := 2 + c.R.Intn(len(sym)-2-len(vals))
+	if i%3 == 0 {
+		off = 2
+	}
+	copy(sym[off:], vals)
+	raw, err := ref.Unpack5to8(sym)
+	if err != nil || len(raw) != k.size+1 || raw[0] != typ {
+		c.Inc("word_construction_failed")
+		return
+	}
+	h = raw[1:]
+	if want := k.want(h, allNets[0].P); !strings.Contains(want, string(w[len(w)-len(vals):])) {
+		panic("harness: constructed payload does not spell the word")
+	}
+	c.Inc("payloads_spelling_" + w[len(w)-len(vals):])
+	c01hashOnNets(c, k, h, allNets)
+}
+
+func c01hashOnNets(c *vf.Ctx, k c01kind, h []byte, nets []netInfo) {
+	{
+		for _, net := range nets {
 			if k.slp && net.P.SlpAddressPrefix == "" {
 				continue
 			}
@@ -330,6 +386,8 @@ func c01scalar(c *vf.Ctx, i int) *big.Int {
 			b[31] = 1
 		}
 		return new(big.Int).SetBytes(b)
+	case i < 66: // 1/2 and -1/2 mod n: public points with a 166-bit x coordinate
+		return specialScalar(i)
 	}
 	k := new(big.Int).SetBytes(c.R.Bytes(32))
 	k.Mod(k, nm1)
@@ -547,7 +605,7 @@ func init() {
 		ID:    "C01",
 		Title: "Every constructible address survives encode -> decode unchanged",
 		Rule: "stream hashes: directed hashes (all-zero, all-ones, 1..n-1 leading zero bytes, every single set bit, every single clear bit) then seeded random hashes, each under all 8 hash kinds x 6 nets x 4 renderings; " +
-			"stream pubkeys-dual-valid: public keys constructed (meet in the middle on the affine checksum) so that their hex is also a checksum-valid CashAddr payload of the net; stream legacy-zero-digit-runs: legacy addresses constructed so that their Base58 string has ten zero digits in the middle; stream legacy-cashaddr-lookalikes: legacy addresses constructed so that their Base58 string consists of CashAddr-alphabet characters in one case only; stream scripts: script lengths 0..520 then random; stream pubkeys: scalars 1..16, n-16..n-1, leading-zero scalars, random, x 3 serialisations x 6 nets x 2 hex cases; stream pubkeys-cashaddr-charset: points whose compressed hex lies inside the CashAddr alphabet (the decoder first tries them as cash addresses). " +
+			"stream pubkeys-dual-valid: public keys constructed (meet in the middle on the affine checksum) so that their hex is also a checksum-valid CashAddr payload of the net; stream legacy-zero-digit-runs: legacy addresses constructed so that their Base58 string has ten zero digits in the middle; stream payload-spells-words: hashes constructed so that the CashAddr payload string contains a network prefix or its spellable tail (slpreg, slptest, chtest, ...) at the start or anywhere; stream legacy-cashaddr-lookalikes: legacy addresses constructed so that their Base58 string consists of CashAddr-alphabet characters in one case only; stream scripts: script lengths 0..520 then random; stream pubkeys: scalars 1..16, n-16..n-1, leading-zero scalars, random, x 3 serialisations x 6 nets x 2 hex cases; stream pubkeys-cashaddr-charset: points whose compressed hex lies inside the CashAddr alphabet (the decoder first tries them as cash addresses). " +
 			"A case is non-trivial and distinct per (kind, net, payload).",
 		Assumptions: []string{
 			"reference CashAddr / Base58Check encoders written from the specifications (self-tested on the specifications' vectors on every run)",
@@ -565,9 +623,10 @@ func init() {
 		Streams: []*vf.Stream{
 			{Name: "hashes", N: func(t vf.Tier) int { return directedHashCount(32) + t.Sz(20000, 300000) }, Run: c01hashCase},
 			{Name: "scripts", N: func(t vf.Tier) int { return 521 + t.Sz(5000, 100000) }, Run: c01scriptCase},
-			{Name: "pubkeys", N: func(t vf.Tier) int { return 64 + t.Sz(2000, 30000) }, Run: c01pubkeyCase},
+			{Name: "pubkeys", N: func(t vf.Tier) int { return 66 + t.Sz(2000, 30000) }, Run: c01pubkeyCase},
 			{Name: "pubkeys-dual-valid", Init: c01dualInit, N: func(t vf.Tier) int { return t.Sz(36, 72) }, Run: c01pubkeyDualCase},
 			{Name: "legacy-zero-digit-runs", N: func(t vf.Tier) int { return t.Sz(600, 12000) }, Run: c01zeroRunCase},
+			{Name: "payload-spells-words", N: func(t vf.Tier) int { return t.Sz(6*14*6, 6*14*60) }, Run: c01wordCase},
 			{Name: "legacy-cashaddr-lookalikes", N: func(t vf.Tier) int { return t.Sz(480, 9600) }, Run: c01lookalikeCase},
 			{Name: "pubkeys-cashaddr-charset", N: func(t vf.Tier) int { return t.Sz(400, 6000) }, Run: c01pubkeyCharsetCase},
 		},
